@@ -1,11 +1,10 @@
-\* aliasing case excluded: small, FULL, FULL
+\* refinement: small, FULL, FULL
 SPECIFICATION Spec
 VIEW View
 CONSTANTS
   NV = 2
   W = 4
   Depth = 3
-  Mode = "noalias"
   Emit = "none"
   Pick = "all"
   FullLevels = {2,3}
@@ -14,6 +13,7 @@ CONSTANTS
   XOffs = {}
   XLens = {}
   MaxLen = 9
+  Mutant = "none"
   Prof <- ProfByLevel
 INVARIANT InvFlatTypeOK
 INVARIANT InvWellFormed
